@@ -109,6 +109,28 @@ authgetl(string *authin)
 	return 0;
 }
 
+/**
+ * @brief check if the decoded user name may be used
+ * @param user the user name sent by the client
+ * @return if the user name contains a control character
+ *
+ * The name of an authenticated user is written to the log and to the
+ * Received: line of the mails it sends, so it must not contain line breaks
+ * or other control characters. No sane backend has such users anyway.
+ */
+static int
+username_invalid(const struct string *user)
+{
+	for (size_t i = 0; i < user->len; i++) {
+		const unsigned char c = user->s[i];
+
+		if ((c < ' ') || (c == 0x7f))
+			return 1;
+	}
+
+	return 0;
+}
+
 static int
 auth_login(struct string *user)
 {
@@ -150,7 +172,7 @@ auth_login(struct string *user)
 		goto err;
 	}
 
-	if (!user->len || !pass.len) {
+	if (!user->len || !pass.len || username_invalid(user)) {
 		if (pass.s != NULL) {
 			explicit_bzero(pass.s, pass.len);
 			free(pass.s);
@@ -207,7 +229,7 @@ auth_plain(struct string *user)
 			pass.len = strlen(pass.s);
 		}
 	}
-	if (!user->len || !pass.len) {
+	if (!user->len || !pass.len || username_invalid(user)) {
 		errno = -err_input();
 		explicit_bzero(slop.s, slop.len);
 		free(slop.s);
@@ -327,6 +349,11 @@ auth_cram(struct string *user)
 	user->len = i;
 	slop.s[i] = '\0';
 	resp.s = s;
+
+	if (username_invalid(user)) {
+		r = err_input();
+		goto err;
+	}
 
 	r = auth_backend_execute(user, &challenge, &resp);
 	free(challenge.s);
